@@ -79,7 +79,7 @@ def execute(hname, chooser, line_points=True, opcode_points=False):
     """One execution of a harness under the chooser; returns observation dict."""
     scripts = HARNESSES[hname]
     sched = vthreads.Scheduler(chooser, horizon=500.0, max_steps=20000, trace_filter=trace_filter,
-                               line_points=line_points, opcode_points=opcode_points)
+                               line_points=line_points, opcode_points=opcode_points, trace_modules=(job_control,))
     names = ['client%d' % i for i in range(len(scripts))] + ['jobthread%d' % i for i in range(8)]
     # job threads are created in start order; client threads first
     shim = vthreads.ShimThreadingModule(sched, names)
@@ -337,13 +337,13 @@ def run(tier, seed):
         for kind, (cnt, choices, detail) in st['viol'].items():
             c2 = viol.get((kind, hname))
             if c2 is None or len(choices) < len(c2[1]):
-                viol[(kind, hname)] = [(c2[0] if c2 else 0) + cnt, choices, detail]
+                viol[(kind, hname)] = [(c2[0] if c2 else 0) + cnt, choices, detail, opc]
             else:
                 c2[0] += cnt
     outcomes = sum(v['distinct_start_end_orders_max_per_shard'] for v in per.values())
-    for (kind, hname), (cnt, choices, detail) in sorted(viol.items()):
-        rep.violation(kind, '%s in harness %s (%d schedules): %s' % (kind, hname, cnt, detail),
-                      {'harness': hname, 'choices': choices, 'detail': detail, 'schedules': cnt})
+    for (kind, hname), (cnt, choices, detail, opc) in sorted(viol.items()):
+        rep.violation(kind, '%s in harness %s (%d schedules%s): %s' % (kind, hname, cnt, ', bytecode granularity' if opc else '', detail),
+                      {'harness': hname, 'choices': choices, 'detail': detail, 'schedules': cnt, 'opcode_points': bool(opc)})
     rep.coverage = {
         'states': tot_pts, 'transitions': tot_pts,
         'traces_validated_against_impl': tot_exec, 'evaluations': tot_exec,
@@ -369,8 +369,8 @@ def replay(path):
     v = json.load(open(path))
     wit = v['witness']
     world.World(world.POP_EMPTY)
-    obs = execute(wit['harness'], choice.Chooser(wit['choices']))
-    obs2 = execute(wit['harness'], choice.Chooser(wit['choices']))
+    obs = execute(wit['harness'], choice.Chooser(wit['choices']), opcode_points=wit.get('opcode_points', False))
+    obs2 = execute(wit['harness'], choice.Chooser(wit['choices']), opcode_points=wit.get('opcode_points', False))
     print('harness', wit['harness'], 'choices', wit['choices'])
     for e in obs['events']:
         print('   ', e)
